@@ -302,6 +302,55 @@ func c05Run(e *core.Env) {
 	c05Base = ""
 	e.BeginTail()
 	c05ManyFiles(e, drv)
+	c05FixedJournals(e, drv)
+}
+
+// c05FixedJournals: hand-picked journals of 5-6 directives whose verdict hinges on the
+// per-day evaluation order (prices, opens, transactions, assertions, closes): every
+// permutation of the directives in one file must give the verdict, reports and
+// printed journal of the first one.
+func c05FixedJournals(e *core.Env, drv *core.Driver) {
+	r, food, bank := "Expenses:Rent", "Expenses:Food", "Assets:Bank"
+	d1, d2 := "2020-01-30", "2020-01-31"
+	journals := [][]jr.Dir{
+		// invalid: the expense account is closed on d1 and booked (credit side first) on d2
+		{jr.O(d1, food), jr.O(d1, r), jr.T(d1, "a", jr.B(food, r, "1", "CHF")), jr.T(d1, "b", jr.B(food, food, "2", "CHF")), jr.C(d1, r), jr.T(d2, "c", jr.B(r, food, "1", "CHF"))},
+		// valid: opened, booked and asserted on one day, closed at zero the next
+		{jr.O(d1, food), jr.O(d1, bank), jr.T(d1, "a", jr.B(bank, food, "5", "CHF")), jr.T(d1, "b", jr.B(food, bank, "5", "CHF")), jr.A(d1, jr.Bal{Acc: bank, Qty: "0", Com: "CHF"}), jr.C(d2, bank)},
+		// invalid: asserted before it is funded on the following day
+		{jr.O(d1, food), jr.O(d1, bank), jr.A(d1, jr.Bal{Acc: bank, Qty: "5", Com: "CHF"}), jr.T(d2, "a", jr.B(food, bank, "5", "CHF")), jr.T(d2, "b", jr.B(food, food, "1", "CHF"))},
+	}
+	for ji, ds := range journals {
+		var base *c05Obs
+		for pi, perm := range permutationsOf(len(ds)) {
+			if !e.Take() {
+				continue
+			}
+			if base == nil {
+				files, root := c05FilesRaw(ds, c05Layout{Order: permutationsOf(len(ds))[0]})
+				drv.Files(files)
+				b, ab := c05Observe(drv, nil, root)
+				if ab != "" {
+					e.Violation("C05:abnormal:fixed-journal", ab, c05Case{Dirs: ds}, nil)
+					return
+				}
+				base = &b
+			}
+			l := c05Layout{Order: perm}
+			files, root := c05FilesRaw(ds, l)
+			drv.Files(files)
+			o, ab := c05Observe(drv, nil, root)
+			e.Count("evaluations")
+			e.Count("fixed_journal_permutations")
+			if ab != "" {
+				e.Violation("C05:abnormal:fixed-journal", ab, c05Case{Dirs: ds, Layout: l}, nil)
+				continue
+			}
+			if key, detail := c05Diff(*base, o); key != "" {
+				e.Violation("C05:"+key+":order:fixed-journal", fmt.Sprintf("journal %d, permutation %d %v: %s\n%s", ji, pi, perm, clip(detail, 2000), files[root]), c05Case{Dirs: ds, Layout: l}, nil)
+			}
+		}
+	}
 }
 
 // c05ManyFiles: a journal of 120 transactions (distinct amounts, two commodities) in one
